@@ -266,6 +266,25 @@ def run_case(case, seed):
             evals += 1
             if not ok or any(not np.array_equal(np.asarray(x), y) for x, y in zip(r, (c0, c1, c2, c3))):
                 fails.append(fail("sparse_to_components", f"class {cls}", cls=cls, **tags))
+            # merging is a function of the four planes IN THE ORDER GIVEN, whatever memory they live in: all 24 orders x
+            # (fresh copies | views of one float (m,n,4) buffer | views of the float view of one quaternion array | Fortran copies),
+            # plus repeated planes
+            if cls in ("dyadic", "negzero", BITCLASSES[0]):
+                import quaternion as _q
+
+                A4 = np.ascontiguousarray(A)
+                Aq_owner = G.to_quat(A)
+                fv = _q.as_float_array(Aq_owner)
+                stores = {"fresh": [c.copy() for c in (c0, c1, c2, c3)], "views_float_buffer": [A4[..., t] for t in range(4)],
+                          "views_quat_buffer": [fv[..., t] for t in range(4)], "fortran": [np.asfortranarray(c) for c in (c0, c1, c2, c3)]}
+                orders = list(itertools.permutations(range(4))) + [(1, 1, 1, 1), (0, 0, 2, 2), (3, 2, 2, 3)]
+                for sname, planes in stores.items():
+                    for order in orders:
+                        ok, back = call(solver._components_to_quat, *[planes[t] for t in order])
+                        evals += 1
+                        exp = np.stack([(c0, c1, c2, c3)[t] for t in order], axis=-1)
+                        if not ok or G.from_quat(back).tobytes() != np.ascontiguousarray(exp).tobytes():
+                            fails.append(fail("components_merge_order", f"class {cls}: planes {order} stored as {sname}: merged matrix is not the stack of the given planes", cls=cls, store=sname, order=list(order), **tags))
     return _ret(case, fails, evals, nontriv)
 
 
